@@ -474,6 +474,17 @@ static bool has_flonum2(Type *ty) {
   return has_flonum(ty, 8, 16, 0);
 }
 
+// Count the registers that a struct or union of at most 16 bytes needs:
+// one per eightbyte, an XMM register if the eightbyte contains only
+// floating-point members and a general-purpose register otherwise.
+// An aggregate of 8 bytes or less has no second eightbyte.
+static void struct_regs(Type *ty, int *gp, int *fp) {
+  bool fp1 = has_flonum1(ty);
+  bool fp2 = has_flonum2(ty);
+  *fp = fp1 + (ty->size > 8 && fp2);
+  *gp = !fp1 + (ty->size > 8 && !fp2);
+}
+
 static void push_struct(Type *ty) {
   int sz = align_to(ty->size, 8);
   println("  sub $%d, %%rsp", sz);
@@ -552,12 +563,14 @@ static int push_args(Node *node) {
         arg->pass_by_stack = true;
         stack += align_to(ty->size, 8) / 8;
       } else {
-        bool fp1 = has_flonum1(ty);
-        bool fp2 = has_flonum2(ty);
+        // A struct is passed in registers only if all of its
+        // eightbytes fit in the remaining registers.
+        int ngp, nfp;
+        struct_regs(ty, &ngp, &nfp);
 
-        if (fp + fp1 + fp2 < FP_MAX && gp + !fp1 + !fp2 < GP_MAX) {
-          fp = fp + fp1 + fp2;
-          gp = gp + !fp1 + !fp2;
+        if (fp + nfp <= FP_MAX && gp + ngp <= GP_MAX) {
+          fp = fp + nfp;
+          gp = gp + ngp;
         } else {
           arg->pass_by_stack = true;
           stack += align_to(ty->size, 8) / 8;
@@ -952,8 +965,10 @@ static void gen_expr(Node *node) {
 
         bool fp1 = has_flonum1(ty);
         bool fp2 = has_flonum2(ty);
+        int ngp, nfp;
+        struct_regs(ty, &ngp, &nfp);
 
-        if (fp + fp1 + fp2 < FP_MAX && gp + !fp1 + !fp2 < GP_MAX) {
+        if (fp + nfp <= FP_MAX && gp + ngp <= GP_MAX) {
           if (fp1)
             popf(fp++);
           else
@@ -1388,11 +1403,11 @@ static void assign_lvar_offsets(Obj *prog) {
       case TY_STRUCT:
       case TY_UNION:
         if (ty->size <= 16) {
-          bool fp1 = has_flonum(ty, 0, 8, 0);
-          bool fp2 = has_flonum(ty, 8, 16, 8);
-          if (fp + fp1 + fp2 < FP_MAX && gp + !fp1 + !fp2 < GP_MAX) {
-            fp = fp + fp1 + fp2;
-            gp = gp + !fp1 + !fp2;
+          int ngp, nfp;
+          struct_regs(ty, &ngp, &nfp);
+          if (fp + nfp <= FP_MAX && gp + ngp <= GP_MAX) {
+            fp = fp + nfp;
+            gp = gp + ngp;
             continue;
           }
         }
